@@ -125,6 +125,10 @@ def gen_cases(thorough):
                 add(derive, cont, lit_rs("{%s %s}" % (llast, sp)), "pass", "*f%d" % (c.n - 1), ptrait, "bare, field by name, whitespace after the argument")
                 add(derive, cont, lit_rs("{0 %s}" % sp) + ", " + f0, "pass", "f0", ptrait, "bare, index 0, whitespace after the argument")
                 add(derive, cont, lit_rs("{%s%s  }" % (llast, sp)), "pass", "*f%d" % (c.n - 1), ptrait, "bare, field by name, whitespace before the closing brace")
+                # ... any whitespace, not only U+0020 (written with Rust escapes so that the program keeps its line structure)
+                add(derive, cont, '"{%s\\t%s}"' % (llast, sp), "pass", "*f%d" % (c.n - 1), ptrait, "bare, field by name, tab after the argument")
+                add(derive, cont, '"{%s%s\\n}"' % (llast, sp), "pass", "*f%d" % (c.n - 1), ptrait, "bare, field by name, newline before the closing brace")
+                add(derive, cont, '"{0\\u{a0}%s}"' % sp + ", " + f0, "pass", "f0", ptrait, "bare, index 0, no-break space after the argument")
                 if ptrait != "Pointer":
                     # expression argument
                     add(derive, cont, lit_rs("{%s}" % sp) + ", %s.wrapping_add(1)" % f0, "pass", "v0.wrapping_add(1)", ptrait, "bare, expression argument")
